@@ -55,6 +55,12 @@ func (rule *RuleEvents) checkEvent(event Event) {
 
 // https://docs.github.com/en/actions/learn-github-actions/workflow-syntax-for-github-actions#onschedule
 func (rule *RuleEvents) checkCron(spec *String) {
+	if v := spec.Value; (strings.HasPrefix(v, "TZ=") || strings.HasPrefix(v, "CRON_TZ=")) && !strings.Contains(v, " ") {
+		// The cron parser slices the time zone name up to the first space and crashes when there is no space
+		rule.Errorf(spec.Pos, "invalid CRON format %q in schedule event: time zone is not followed by cron expression", v)
+		return
+	}
+
 	p := cron.NewParser(cron.Minute | cron.Hour | cron.Dom | cron.Month | cron.Dow)
 	sched, err := p.Parse(spec.Value)
 	if err != nil {
